@@ -40,8 +40,11 @@ Admit(T, v) ==
        ELSE IF v.k # "list" THEN Null
        ELSE LET r == [i \in 1..Len(v.items) |-> Admit(T.of, v.items[i])] IN
             IF \E i \in 1..Len(v.items) : IsU(r[i]) THEN Unspec
-            ELSE IF \A i \in 1..Len(v.items) : r[i] = v.items[i] THEN v
-            ELSE Alt(Null, List(r))      \* an element does not conform: the whole value, or that element, becomes null
+            \* an element that does not conform (it would be replaced by null) makes the list non-conforming: the list is
+            \* replaced by null as a whole; an element of a component type keeps its place with only its non-conforming
+            \* components replaced
+            ELSE IF \E i \in 1..Len(v.items) : r[i].k = "null" /\ v.items[i].k # "null" THEN Null
+            ELSE List(r)
 
 \* the FEEL type an item definition denotes
 RECURSIVE OutType(_)
